@@ -102,7 +102,44 @@ def run(ctx):
             R.ok('a', 'R2', inst, '', f.loc())
     g = ctx.try_fn('a', RBS)
     if g is not None:
-        ctx.r1('a', RBS, Sink('remove_rolled_back_transactions_and_block_range_by_block_number', RB, 'ok')) if False else None
+        # F16: every Ok of the by-slot roll-back has removed something - above the closest stored block, or (no stored block at or below the
+        # slot) everything: the pinned tree returned Ok without touching the store in that case
+        DELQ = [Q + 'cardano_block::delete_cardano_block_and_transactions::DeleteCardanoBlockAndTransactionQuery::*']
+        removers = [RB] + sorted({getattr(h, '_orig', h).root().name for h in ctx.closure_fns(g, depth=2)
+                                  if getattr(h, '_orig', h).root() is not getattr(g, '_orig', g).root() and ctx.closure_sites(h, DELQ, depth=2)})
+        ctx.r1('a', RBS, Sink('a removal (by block number, or of everything)', removers, 'ok'), label='roll-back by slot: every Ok return has passed a removal')
+        # the remove-everything arm is transactional and covers the three tables too
+        for hn in removers:
+            if hn == RB:
+                continue
+            hf = ctx.try_fn('a', hn)
+            if hf is None:
+                continue
+            hl = hf.logic()
+            hb = hl.body
+            bs_, bed_ = ctx.success_edges_of(hl, BEGIN)
+            cs_ = ctx.call_sites(hb, COMMIT)
+            pr_ = []
+            tables = {'blocks+transactions': ['*::DeleteCardanoBlockAndTransactionQuery::*'], 'block range roots': ['*::DeleteBlockRangeRootQuery::*'],
+                      'legacy block range roots': ['*::DeleteLegacyBlockRangeRootQuery::*']}
+            for what, pats in tables.items():
+                qs = ctx.call_sites(hb, pats)
+                if not qs:
+                    pr_.append('no %s delete' % what)
+                for c in qs:
+                    if c.bb in hb.reach([0], removed=bed_):
+                        pr_.append('%s delete outside the transaction' % what)
+            ced_ = set()
+            for c in cs_:
+                tr = track_result(hb, c.dest[0], +1)
+                ced_ |= tr.success_edges or {(c.bb, c.target)}
+            if not bs_ or not cs_ or success_reachable(hb, ced_, 'ok'):
+                pr_.append('Ok reachable without begin/commit')
+            inst_h = '%s: the three tables are emptied in one transaction' % fn_short(hn)
+            if pr_:
+                R.violation('a', 'R2', inst_h, 'rollback:remove-all', '; '.join(sorted(set(pr_))), hf.loc())
+            else:
+                R.ok('a', 'R2', inst_h, '', hf.loc())
         lg = g.logic()
         body = lg.body
         rb = ctx.call_sites(body, [RB])
